@@ -213,13 +213,13 @@ func endsWithDot(path string) bool {
 	return false
 }
 
-// RemoveAll is the portable (non-openat) real algorithm.
+// RemoveAll follows the real (openat-based) algorithm with path-based calls:
+// Remove; on failure open the parent, then per entry: remove, else read the
+// directory, recurse, remove the directory. Error values (Op "unlinkat",
+// "openfdat", "readdirnames"; Path rebuilt from parent + entry) are the real ones.
 func RemoveAll(path string) error {
 	if path == "" {
 		return nil
-	}
-	for len(path) > 1 && IsPathSeparator(path[len(path)-1]) {
-		path = path[:len(path)-1]
 	}
 	if endsWithDot(path) {
 		return &PathError{Op: "RemoveAll", Path: path, Err: syscall.EINVAL}
@@ -228,42 +228,110 @@ func RemoveAll(path string) error {
 	if err == nil || IsNotExist(err) {
 		return nil
 	}
-	dir, serr := Lstat(path)
-	if serr != nil {
-		if serr, ok := serr.(*PathError); ok && (IsNotExist(serr.Err) || serr.Err == syscall.ENOTDIR) {
-			return nil
-		}
-		return serr
-	}
-	if !dir.IsDir() {
-		return err
-	}
-	err = nil
-	fd, oerr := Open(path)
-	if oerr != nil {
-		if IsNotExist(oerr) {
-			return nil
-		}
-		return oerr
-	}
-	names, readErr := fd.Readdirnames(-1)
-	fd.Close()
-	for _, name := range names {
-		if err1 := RemoveAll(path + string(PathSeparator) + name); err == nil {
-			err = err1
-		}
-	}
-	if err == nil {
-		err = readErr
-	}
-	err1 := Remove(path)
-	if err1 == nil || IsNotExist(err1) {
+	parentDir, base := splitPath(path)
+	parent, err := OpenFile(parentDir, O_RDONLY, 0)
+	if IsNotExist(err) {
 		return nil
 	}
-	if err == nil {
-		err = err1
+	if err != nil {
+		return err
+	}
+	defer parent.Close()
+	if err := removeAllFrom(parentDir, base); err != nil {
+		if pathErr, ok := err.(*PathError); ok {
+			pathErr.Path = parentDir + string(PathSeparator) + pathErr.Path
+			err = pathErr
+		}
+		return err
+	}
+	return nil
+}
+
+func errnoOf(err error) error {
+	if pe, ok := err.(*PathError); ok {
+		return pe.Err
 	}
 	return err
+}
+
+func removeAllFrom(parentPath, base string) error {
+	full := parentPath + string(PathSeparator) + base
+	// Simple case: if Unlink (aka remove) works, we're done.
+	err := simfs.Must().Unlink(full)
+	if err == nil || IsNotExist(err) {
+		return nil
+	}
+	// EISDIR means that we have a directory, and we need to remove its
+	// contents. EPERM or EACCES means that we don't have write permission on
+	// the parent directory, but this entry might still be a directory whose
+	// contents need to be removed. Otherwise just return the error.
+	uErr := errnoOf(err)
+	if uErr != syscall.EISDIR && uErr != syscall.EPERM && uErr != syscall.EACCES {
+		return &PathError{Op: "unlinkat", Path: base, Err: uErr}
+	}
+	var recurseErr error
+	file, err := OpenFile(full, O_RDONLY|syscall.O_DIRECTORY, 0)
+	if err != nil {
+		if IsNotExist(err) {
+			return nil
+		}
+		if errnoOf(err) == syscall.ENOTDIR {
+			return &PathError{Op: "unlinkat", Path: base, Err: uErr}
+		}
+		recurseErr = &PathError{Op: "openfdat", Path: base, Err: errnoOf(err)}
+	} else {
+		names, readErr := file.Readdirnames(-1)
+		file.Close()
+		if readErr != nil && readErr != io.EOF {
+			if IsNotExist(readErr) {
+				return nil
+			}
+			return &PathError{Op: "readdirnames", Path: base, Err: errnoOf(readErr)}
+		}
+		for _, name := range names {
+			if err := removeAllFrom(full, name); err != nil {
+				if pathErr, ok := err.(*PathError); ok {
+					pathErr.Path = base + string(PathSeparator) + pathErr.Path
+				}
+				if recurseErr == nil {
+					recurseErr = err
+				}
+			}
+		}
+	}
+	unlinkError := simfs.Must().Rmdir(full)
+	if unlinkError == nil || IsNotExist(unlinkError) {
+		return nil
+	}
+	if recurseErr != nil {
+		return recurseErr
+	}
+	return &PathError{Op: "unlinkat", Path: base, Err: errnoOf(unlinkError)}
+}
+
+// splitPath is the real package's helper: parent directory and final element.
+func splitPath(path string) (string, string) {
+	dirname := "."
+	for len(path) > 1 && path[0] == '/' && path[1] == '/' {
+		path = path[1:]
+	}
+	i := len(path) - 1
+	for ; i > 0 && path[i] == '/'; i-- {
+		path = path[:i]
+	}
+	basename := path
+	for i--; i >= 0; i-- {
+		if path[i] == '/' {
+			if i == 0 {
+				dirname = path[:1]
+			} else {
+				dirname = path[:i]
+			}
+			basename = path[i+1:]
+			break
+		}
+	}
+	return dirname, basename
 }
 
 // Rename performs the real package's pre-checks (Lstat of the target, and of the
@@ -580,7 +648,7 @@ func (f *File) Readdirnames(n int) ([]string, error) {
 
 // ReadDir = open, read all entries, close; sorted by name.
 func ReadDir(name string) ([]DirEntry, error) {
-	f, err := Open(name)
+	f, err := OpenFile(name, O_RDONLY|syscall.O_DIRECTORY, 0)
 	if err != nil {
 		return nil, err
 	}
